@@ -28,7 +28,7 @@ def search(ctx, res, problems):
 
 
 PROP = {
-    "streams": streams, "search": search,
+    "streams": streams, "search": search, "translators": gc.translators_gauss,
     "rule": ("getNoise(out, rlen) with a scripted random stream, exact-size output buffer pre-filled with a sentinel: request lengths 0..64 (quick) / every length 0..4096 on the 8-bit depth-2 sampler and every 4th/8th length on three more samplers (thorough) "
              "and 4096, stream kinds random / all-zero / all-ones / barrier copies / barrier with last word +-1 / barrier on a long prefix / words of flagged cells; "
              "both index widths and depths; out_class int32_t (all of this) and int64_t / uint64_t / uint32_t / int16_t / uint16_t (lengths 0..64, 257; also stream kind 'barriers with a negative value, last word +-1'), "
@@ -42,6 +42,7 @@ PROP = {
              "ending at random points and sampler slots reused; per lifecycle the allocator accounting (ASan malloc/free hooks: every block obtained inside constructor / getNoise / destructor "
              "on any thread, removed when freed on any thread) must end at 0 blocks / 0 bytes and is compared with the allocation model's residue; everything under ASan+UBSan+LSan"),
     "trusted_base": props.COMMON_TB + [
+        gc.GAUSS_AST_TB,
         "AddressSanitizer/UBSan/LeakSanitizer of g++ 12 detect the out-of-bounds accesses, leaks and UB they are documented to detect (MPFR/GMP are not instrumented)",
         "the float product that sizes the buffer is abstracted: bufLen is read off the request the scripted fastrandombytes receives and must be >= wp",
         "scripted nfl::fastrandombytes replaces the PRNG at link time",
